@@ -15,7 +15,12 @@ all i, j, susceptibilities and chi at frequency triples aimed at the resonance p
 the full-space oracle (driver_ed).
 Tolerance: 1e-9 * scale; the library drops residues below 1e-8 per part, so the set of dropped terms depends on the partition:
 where that can happen (the residues of G_ij reported by `gfterms` do not add up to delta_ij in some partition; for susceptibility /
-chi: some Boltzmann weight below 1e-6) 1e-7 absolute is allowed instead.  Susceptibilities against the oracle: additionally the sum
+chi: some Boltzmann weight below 1e-6) 1e-7 absolute is allowed instead.
+Histories (several models per process): the library objects of one partition must not depend on what the process computed before.
+After the separate runs, the partitions of a model (ignore, default, custom lists) are computed one after the other in ONE h_ed process
+(several `model ... end` blocks with their queries), in the given order, reversed and rotated, and pairs of different models with the
+same number of modes are interleaved (A/p0, B/q0, A/p1, B/q1, ...); every record of every block (dump and query answers) must equal the
+record of the run in a process of its own (hex floats compared to 1e-10 relative).  A failing history is shrunk to two blocks.  Susceptibilities against the oracle: additionally the sum
 over all pairs of levels of 1e-8 / |i W - (E_a - E_b)| (SusceptibilityPart leaves out terms with residues up to 1e-8; with a small level
 spacing one such term is worth more than 1e-7).  A partition under which the harness dies in a later query is re-run with dm / gf only.
 """
@@ -387,6 +392,112 @@ def run_partition(text, mode, ioms, q):
     return r
 
 
+def crash_text(err):
+    keep = [l.strip() for l in err.split("\n") if any(w in l for w in ("Assertion", "Signal:", "what():", "terminate called", "ERROR:", "timeout"))]
+    return "; ".join(keep)[:300] or " ".join(err.split())[-200:]
+
+
+def run_sequence(items, timeout=150):
+    """items: [(scenario text incl. symm line, [query lines])] computed one after the other in ONE h_ed process.
+    -> (rc, [segment], stderr tail); segment = {"built": bool, "error": str|None, "dump": [...], "impl": [...]} per `model` block reached"""
+    h, _ = edlib.binaries("real")
+    inp = "".join("model ops\n%s\nend\n%s\n" % (sc.strip(), "\n".join(q)) for sc, q in items)
+    rc, out, err = pv.run_harness(h, inp, timeout=timeout)
+    if rc == 124:
+        err = "timeout: no answer within %d s (a process of its own needs a few seconds)\n" % timeout + err
+    segs, cur = [], None
+    for l in out.split("\n"):
+        t = l.split()
+        if not t:
+            continue
+        if t[0] in ("BUILT", "ERROR"):
+            cur = {"built": t[0] == "BUILT", "error": " ".join(t[1:]) if t[0] == "ERROR" else None, "dump": [], "impl": []}
+            segs.append(cur)
+        elif cur is not None:
+            cur["dump" if t[0] in edlib.DUMP_TAGS else "impl"].append(t)
+    return rc, segs, crash_text(err)
+
+
+SEQ_TOL = 1e-10
+
+
+def rec_diff(a, b):
+    """first difference between two records (token lists): None or text; numeric tokens to SEQ_TOL relative"""
+    if len(a) != len(b):
+        return "%d tokens instead of %d" % (len(a), len(b))
+    for k, (x, y) in enumerate(zip(a, b)):
+        if x == y:
+            continue
+        try:
+            fx, fy = hx(x), hx(y)
+        except ValueError:
+            return "token %d: %s instead of %s" % (k, x, y)
+        if not abs(fx - fy) <= SEQ_TOL * max(1.0, abs(fx), abs(fy)):
+            return "token %d: %r instead of %r" % (k, fx, fy)
+    return None
+
+
+def seg_diff(seg, r):
+    """first record of a block of a history that differs from the run in a process of its own: None or (record head, text)"""
+    if not seg["built"]:
+        return ("ERROR", "the model does not build: %s" % seg["error"])
+    for mine, ref in ((seg["dump"], r.dump), (seg["impl"], r.impl)):
+        for a, b in zip(mine, ref):
+            d = rec_diff(a, b)
+            if d:
+                return (" ".join(b[:5 if b[0] not in ("G", "GCOPY", "AVG", "DM") else 3]), d)
+        if len(mine) != len(ref):
+            return (" ".join(ref[len(mine)][:5]) if len(mine) < len(ref) else "extra", "%d records instead of %d" % (len(mine), len(ref)))
+    return None
+
+
+def history_check(chk, jobs, stats):
+    """jobs: [(kind, [(fam, text, q, pname, mode, ioms, own-process Run)])]; runs every history, reports the smallest failing one per kind"""
+    def go(job):
+        return run_sequence([(with_symm(text, mode, ioms), q) for (fam, text, q, pname, mode, ioms, r) in job[1]])
+    with cf.ThreadPoolExecutor(max_workers=8) as ex:
+        outs = list(ex.map(go, jobs))
+    fails, nfail = {}, {}
+    for (kind, items), (rc, segs, err) in zip(jobs, outs):
+        stats["histories"] += 1
+        stats["history_blocks"] += len(items)
+        chk.case("history " + kind + "".join(it[1] + it[3] for it in items),
+                 "history %s | %d blocks | n=%s" % (kind, len(items), ",".join(sorted(set(str(sum(o * s_ for (_, o, s_) in sites_of(it[1]))) for it in items)))), True)
+        bad = None
+        for k, it in enumerate(items):
+            if k >= len(segs):
+                bad = (k, ("(process died)", "the process died (exit %s) while computing this block: %s" % (rc, err)))
+                break
+            d = seg_diff(segs[k], it[6])
+            if d:
+                bad = (k, d)
+                break
+        if bad is None and rc != 0:
+            bad = (len(items) - 1, ("(exit)", "the process ended with exit %s after the last block: %s" % (rc, err)))
+        if bad:
+            nfail[kind] = nfail.get(kind, 0) + 1
+            size = (len(items), sum(len(it[1]) for it in items))
+            if kind not in fails or size < fails[kind][0]:
+                fails[kind] = (size, items, bad)
+    for kind, (size, items, (k, d)) in sorted(fails.items()):
+        # shrink to two blocks: some earlier block j followed directly by block k
+        pair = None
+        for j in range(k):
+            rc, segs, err = run_sequence([(with_symm(it[1], it[4], it[5]), it[2]) for it in (items[j], items[k])])
+            d2 = (seg_diff(segs[1], items[k][6]) if len(segs) > 1 else ("(process died)", "the process died (exit %s): %s" % (rc, err)))
+            if d2:
+                pair, d = (items[j], items[k]), d2
+                break
+        hist = pair or items[:k + 1]
+        last = hist[-1]
+        desc = " -> ".join("[%s | symm %s]" % (" | ".join(it[1].strip().split("\n")), it[3]) for it in hist)
+        chk.violation("history-dependence: " + desc,
+                      "%s: record `%s` of the model under partition %s depends on what the process computed before: %s (first value: as the last block of the history "
+                      "%s in ONE process, second: in a process of its own); %d histories of kind %s fail"
+                      % (last[0], d[0], last[3], d[1], " -> ".join("%s/%s" % (it[0], it[3]) for it in hist), nfail[kind], kind),
+                      {"harness": "h_ed", "history": [{"scenario": with_symm(it[1], it[4], it[5]), "queries": it[2]} for it in hist], "record": d[0]})
+
+
 def setup():
     edlib.binaries("real")
 
@@ -403,7 +514,9 @@ def run(chk):
                    "real build; dyadic amplitudes"]
     setup()
     rng = chk.rng
-    stats = {"runs": 0, "pair_comparisons": 0, "oracle_comparisons": 0, "loose_quantities": 0, "tight_quantities": 0, "default_throws": 0}
+    stats = {"runs": 0, "pair_comparisons": 0, "oracle_comparisons": 0, "loose_quantities": 0, "tight_quantities": 0, "default_throws": 0,
+             "histories": 0, "history_blocks": 0}
+    per_model = []    # (fam, text, n, q, [(pname, mode, ioms, own-process Run)]) -- complete runs only
 
     # --- canonical probe (shares the C07 finding)
     ptext, pioms = canonical_probe()
@@ -445,6 +558,8 @@ def run(chk):
         plist = [("ignore", "ignore", ())] + [("default", "default", ())] + [("custom:" + nm, "custom", io) for (nm, io) in sets]
         with cf.ThreadPoolExecutor(max_workers=6) as ex:
             results = list(ex.map(lambda p: run_partition(text, p[1], p[2], q), plist))
+        okruns = []
+        per_model.append((fam, text, n, q, okruns))
         for (pname, mode, ioms), r in zip(plist, results):
             stats["runs"] += 1
             if r.error:
@@ -468,6 +583,8 @@ def run(chk):
                 chk.tie_broken("h_ed", "%s / %s: query threw: %s" % (fam, pname, o.throws[0]))
                 continue
             runs.append((pname, mode, ioms, o))
+            if not r.crash and not r.error and r.dump:
+                okruns.append((pname, mode, ioms, r))
             sig = "%s | %s | accepted %d -> %d blocks" % (fam, pname, o.nsym, o.nblocks)
             chk.case(text + pname, sig, o.nblocks > 1 or mode == "ignore",
                      {"family": fam, "partition": pname, "blocks": o.nblocks, "G_00(z0)": str(o.v.get("G_0,0(z0)"))} if len(chk.samples) < 6 else None)
@@ -487,6 +604,31 @@ def run(chk):
                 w = compare(runs[0][3], other[3])
                 if w:
                     note(fam, text, q, other, runs[0], w, n)
+    # --- histories: several partitions / models per process
+    jobs = []
+    for mi, (fam, text, n, q, okruns) in enumerate(per_model):
+        items = [(fam, text, q, pname, mode, ioms, r) for (pname, mode, ioms, r) in okruns]
+        if len(items) < 2:
+            continue
+        fixed = fam.startswith("fixed:")
+        jobs.append(("same-model given order", items))
+        if fixed or mi % 2 == 0 or not quick:
+            jobs.append(("same-model reversed", items[::-1]))
+        if fixed or not quick:
+            jobs.append(("same-model rotated", items[2:] + items[:2]))
+            jobs.append(("same-model twice", [items[1], items[0], items[1], items[-1], items[0]]))
+    byn = {}
+    for m in per_model:
+        if len(m[4]) >= 2:
+            byn.setdefault(m[2], []).append(m)
+    for n, ms in sorted(byn.items()):
+        pairs = list(zip(ms[0::2], ms[1::2]))
+        for (A, B) in (pairs if not quick else pairs[:3] + pairs[3::3]):
+            ia = [(A[0], A[1], A[3], pn, mo, io, r) for (pn, mo, io, r) in A[4]]
+            ib = [(B[0], B[1], B[3], pn, mo, io, r) for (pn, mo, io, r) in B[4]]
+            alt = [x for pr in zip(ia, ib) for x in pr]
+            jobs.append(("two models alternating", alt))
+    history_check(chk, jobs, stats)
     for kind, lst in sorted(failures.items()):
         lst.sort(key=lambda x: (x[0], x[1], x[3], x[5][0]))
         _, _, fam, text, q, run_, ref, w, n = lst[0]
@@ -504,7 +646,9 @@ def run(chk):
                 "spin-conserving hopping) under ignore, default and 4-6 lists around members of that family, half of them with increments that "
                 "agree at the vacuum and at the filled state; queries: dm, G_ij at 3 complex z for all i, j (+ term lists), <c^+_i c_j>, 3-8 susceptibilities at "
                 "W_0, W_1, W_-2, 2-6 chi at resonance-pattern triples. A case = (model, partition); distinct = distinct text; non-trivial = more than one "
-                "block or the one-block reference. Signature = family | partition | accepted count -> block count.")
+                "block or the one-block reference. Signature = family | partition | accepted count -> block count. Histories: for every model its "
+                "partitions one after the other in ONE process (given order; reversed for every second model; rotated and with repetitions for the "
+                "deterministic models) and pairs of same-size models interleaved; every record compared with the run in a process of its own.")
 
 
 def nonuniform_accepted(text, mode, ioms, nsym, n):
@@ -579,6 +723,16 @@ def replay(chk, path):
     import json
     r = json.load(open(path))
     rp = r.get("replay", {})
+    if isinstance(rp, dict) and "history" in rp:
+        hist = [(h["scenario"], h["queries"]) for h in rp["history"]]
+        rc, segs, err = run_sequence(hist)
+        print("history of %d blocks in ONE process: exit %s %s" % (len(hist), rc, err))
+        own = edlib.run(hist[-1][0], hist[-1][1], oracle=False)
+        if len(segs) == len(hist):
+            print("last block differs from the run in a process of its own at:", seg_diff(segs[-1], own))
+        else:
+            print("only %d blocks were computed" % len(segs))
+        return 0
     if isinstance(rp, dict) and ("scenario" in rp or "scenario_b" in rp):
         a = rp.get("scenario") or rp.get("scenario_b")
         b = rp.get("reference") if rp.get("reference") not in (None, "oracle") else rp.get("scenario_a")
